@@ -145,6 +145,15 @@ def step (st : St) (line : String) : St × String :=
           else finish st (s.step st.cfg (if op == "deliver" then .deliver i else if op == "drop" then .drop i else .dup i))
         | _, _ => (st, "bad-op")
       else (st, "bad-op")
+    | ["forgehb", f, l, c, fin, lv] =>
+      let fin? := if fin == "F" then some true else if fin == "f" then some false else none
+      let lv? := if lv == "L" then some true else if lv == "l" then some false else none
+      match st.sys, f.toNat?, l.toNat?, c.toNat?, fin?, lv? with
+      | some s, some f, some l, some c, some fin, some lv =>
+        (match s.r.onHb st.cfg f l c fin lv with
+         | .panic => finish st .panic
+         | .ok (r', out) => finish st (.ok ({ s with r := r', net := s.net ++ out }, out)))
+      | _, _, _, _, _, _ => (st, "bad-op")
     | ["flush"] => match st.sys with
       | some s =>
         match flushLoop st.cfg 4096 s [] with
